@@ -16,6 +16,10 @@ CHECKS = {
    technique="TLA+ spec Stream (wire of segments, entry points, receiver prior state, chunking, faults): TLC exhausts the model and generates the scenarios; real (de)serialisation traces validated by TLC",
    text="TLC model-checks the stream model (composability, prefix consumption) and enumerates every scenario (object x write entry x read entry x prior receiver state x chunking; multi-object streams by simulation); each scenario and a fault sweep (truncation at every offset class, single-byte header corruption, writers failing at sampled offsets, JSON codecs) run on 29 serialisable type classes / 79 values of the real library, and the recorded sizes, counts, digests, consumed bytes, equality and error/panic/allocation outcomes must be a behaviour of the specification.",
    note="Trusted: TLC, the Stream specification, the harness' equality (re-encoding + Equal methods both ways), runtime.MemStats for allocation. Objects are built on LogN 4-6 parameters. bgv/ckks Parameters entry-point mismatch is a recorded known finding."),
+ "C14": dict(spec="MPKeyGen / MPKeyGenGen / MPKeyGenTrace", design="DESIGN.md §5 C14",
+   technique="TLA+ spec MPKeyGen (shares as member sets with tags, digest-functional aggregation): TLC enumerates all aggregation schedules; replay on the multiparty protocols; TLC trace validation",
+   text="TLC enumerates every aggregation schedule for 3 and 4 parties (all merge orders, operand orders, in-place or fresh outputs, serialisation hops; 5-8 parties by simulation) and checks the share algebra; each schedule is replayed on the real public-key, evaluation-key, Galois-key and two-round relinearisation-key protocols for seven key parameterisations (incl. unequal prime sizes with base-2 digits, two P primes, no P); the trace must show digests that depend only on the member set, refusals of mismatched shares, and a finalised key that works under the ideal secret with bounded noise.",
+   note="Trusted: TLC, the MPKeyGen specification, the bgv/rlwe single-party evaluator and decryptor used to exercise the key, sha256 digests of MarshalBinary. Noise bound is relative to a single-party key of the same ideal secret."),
  "C09": dict(spec="IntEval (frame) ...", design="DESIGN.md §5 C09",
    technique="TLA+ spec IntEval with frame condition: TLC-generated programs with all aliasing patterns replayed on poisoned evaluators, TLC trace validation",
    text="Same generated programs as C05, with the frame condition switched on in the trace specification: after every call every register other than the designated output, and every non-ciphertext operand (*big.Int, slices, plaintexts) must be bit-for-bit unchanged; outputs aliased with op0/op1 and outputs that previously held a larger degree or level must produce the model's (alias-independent) value; all evaluator scratch buffers are filled with garbage before every call so residue dependence shows as a wrong value.",
